@@ -1,3 +1,4 @@
+import UbxModel.Model.Codec
 /-! The few Python primitives the source-level translation (`tools/pysrc2lean.py` → `Gen/Src.lean`) needs,
     with the meaning CPython gives them on the values that occur there. -/
 namespace Py
@@ -18,5 +19,20 @@ def inChars (c : Nat) (chars : List Nat) : Bool := chars.contains c
 /-- `int(c, 16)` for a hexadecimal digit `c` (only called after `c in '0123456789abcdefABCDEF'`) -/
 def hexDigitValue (c : Nat) : Nat :=
   if 48 ≤ c ∧ c ≤ 57 then c - 48 else if 97 ≤ c ∧ c ≤ 102 then c - 87 else c - 55
+
+/-- `lst[i]` with `IndexError` -/
+def listIndex (l : List Nat) (i : Nat) : Except Ubx.Exc Nat :=
+  match l[i]? with
+  | some v => .ok v
+  | none => .error .indexError
+
+/-- `d[k]` on a dict given as its items; a missing key ends in `err` (`KeyError`, or what the code re-raises it as) -/
+def dictGet (d : List (Nat × Nat)) (k : Nat) (err : Ubx.Exc) : Except Ubx.Exc Nat :=
+  match d.find? (fun e => e.1 == k) with
+  | some e => .ok e.2
+  | none => .error err
+
+/-- `k in d` -/
+def dictHas (d : List (Nat × Nat)) (k : Nat) : Bool := (d.find? (fun e => e.1 == k)).isSome
 
 end Py
